@@ -26,7 +26,7 @@ def gen_history(r, accts):
             t = hi[a.pk] + r.below(2)
             hi[a.pk] = max(hi[a.pk], t) + (1 if r.chance(0.7) else 0)
             ops.append(conc.att_op(r.choice([conc.name(a), conc.key(a)]), 1, t, r.below(3)))
-            if r.chance(0.15):      # the state write fails (not landed): nothing may be released
+            if r.chance(0.25):      # the state write fails (not landed): nothing may be released
                 ops[-1] = ops[-1][:-1] + "s"
         elif k == "atts":
             ys = r.shuffle(accts)[:2 + r.below(2)]
@@ -36,7 +36,7 @@ def gen_history(r, accts):
                 hi[y.pk] = max(hi[y.pk], t) + 1
                 items.append(conc.att_item(conc.name(y), 1, t, r.below(3)))
             ops.append(conc.atts_op(items))
-            if r.chance(0.15):
+            if r.chance(0.25):
                 f_ = ops[-1].split(" ")
                 f_[3] = "s"
                 ops[-1] = " ".join(f_)
@@ -45,7 +45,7 @@ def gen_history(r, accts):
             s = slot[a.pk] + r.below(2)
             slot[a.pk] = max(slot[a.pk], s) + 1
             ops.append(conc.prop_op(conc.name(a), s, r.below(3)))
-            if r.chance(0.15):
+            if r.chance(0.25):
                 ops[-1] = ops[-1][:-1] + "s"
     return ops
 
